@@ -3,6 +3,7 @@ package props
 import (
 	"fmt"
 	"go/token"
+	"go/types"
 	"strings"
 
 	"golang.org/x/tools/go/ssa"
@@ -146,10 +147,40 @@ func derived(v ssa.Value) map[ssa.Value]bool {
 					out[y] = true
 					q = append(q, y)
 				}
+			case *ssa.Call:
+				// min/max keep the sign of a negative operand
+				if b, ok := y.Call.Value.(*ssa.Builtin); ok && (b.Name() == "min" || b.Name() == "max") && !out[y] {
+					out[y] = true
+					q = append(q, y)
+				}
 			}
 		}
 	}
 	return out
+}
+
+// panicsOnNegative: the use panics when handed a negative size.
+func panicsOnNegative(in ssa.Instruction) bool {
+	switch x := in.(type) {
+	case *ssa.MakeSlice, *ssa.MakeChan, *ssa.MakeMap, *ssa.Slice, *ssa.IndexAddr, *ssa.Index:
+		return true
+	case ssa.CallInstruction:
+		return an.IsCall(x, "bytes.Buffer.Grow", "strings.Builder.Grow", "bufio.Reader.Discard", "bufio.Reader.Peek") || strings.HasPrefix(an.CalleeID(x), "slices.Grow")
+	}
+	return false
+}
+
+// signedOperand: the derived value consumed by the use has a signed type.
+func signedOperand(in ssa.Instruction, dv map[ssa.Value]bool) bool {
+	for _, op := range in.Operands(nil) {
+		if *op == nil || !dv[*op] {
+			continue
+		}
+		if bt, ok := (*op).Type().Underlying().(*types.Basic); ok && bt.Info()&types.IsUnsigned == 0 {
+			return true
+		}
+	}
+	return false
 }
 
 func c18taint(c *core.Ctx, fn *ssa.Function, src ssa.Value) {
@@ -158,6 +189,9 @@ func c18taint(c *core.Ctx, fn *ssa.Function, src ssa.Value) {
 	dv := derived(src)
 	// bounded edges: comparisons of a derived value against a constant
 	bounded := map[an.Edge]bool{}
+	// edges on which the length is known not to be negative: an ordered
+	// comparison of an unsigned value, or an explicit sign test
+	nonneg := map[an.Edge]bool{}
 	var bound int64 = -1
 	for _, b := range fn.Blocks {
 		if len(b.Instrs) == 0 {
@@ -192,11 +226,34 @@ func c18taint(c *core.Ctx, fn *ssa.Function, src ssa.Value) {
 		if !kok {
 			continue
 		}
+		operand := bo.X
+		if !dv[bo.X] {
+			operand = bo.Y
+		}
+		unsigned := false
+		if bt, isB := operand.Type().Underlying().(*types.Basic); isB && bt.Info()&types.IsUnsigned != 0 {
+			unsigned = true
+		}
 		switch op {
 		case token.GTR, token.GEQ: // v > K : false edge is bounded
+			if k == 0 || (k == -1 && op == token.GTR) {
+				// v > 0 / v >= 0 : the true edge is non-negative (not an upper bound)
+				nonneg[an.Edge{From: b, To: b.Succs[0]}] = true
+				continue
+			}
 			bounded[an.Edge{From: b, To: b.Succs[1]}] = true
+			if unsigned {
+				nonneg[an.Edge{From: b, To: b.Succs[1]}] = true
+			}
 		case token.LSS, token.LEQ: // v < K : true edge is bounded
+			if k == 0 && op == token.LSS {
+				nonneg[an.Edge{From: b, To: b.Succs[1]}] = true
+				continue
+			}
 			bounded[an.Edge{From: b, To: b.Succs[0]}] = true
+			if unsigned {
+				nonneg[an.Edge{From: b, To: b.Succs[0]}] = true
+			}
 		default:
 			continue
 		}
@@ -238,6 +295,14 @@ func c18taint(c *core.Ctx, fn *ssa.Function, src ssa.Value) {
 				c.Bad("C35.a", "TAINT", construct, c.P.Pos(use.Pos()),
 					fmt.Sprintf("a length decoded from the connection at %s reaches %s with no constant upper bound on the way: a few bytes can announce any size", pos, useKind(use)), nil)
 				continue
+			}
+			if panicsOnNegative(use) && signedOperand(use, dv) {
+				if len(an.Ungated(an.CutSpec{Fn: fn, GateEdge: nonneg, Sink: func(in ssa.Instruction) bool { return in == use }})) > 0 {
+					bad++
+					c.Bad("C35.a", "TAINT", construct+":sign", c.P.Pos(use.Pos()),
+						fmt.Sprintf("a length decoded from the connection at %s is converted to a signed integer and reaches %s bounded from above only: a prefix with the top bit set becomes negative, passes the size check and panics there — the handler goroutine has no recover, so one malformed message stops the node", pos, useKind(use)), nil)
+					continue
+				}
 			}
 			if _, isMake := use.(*ssa.MakeSlice); isMake && bound > 1<<20 {
 				bad++
